@@ -321,6 +321,19 @@ def materialise(case):
     return pool
 
 
+def mat_options(opts, oi, iters, prop, faults=None):
+    """The options dict handed to estimate.  For C13 about half of the caller-chosen MD step sizes become a decaying schedule
+    (a callable of the iteration number - the third documented spelling of `stepsize`); derived from values the case already
+    holds, so the generated cases are the same as before."""
+    o = dict(opts)
+    if prop == 'C13' and 'stepsize' in o and (oi + iters) % 2 == 1:
+        a = float(o['stepsize'])
+        o['stepsize'] = lambda t, a=a: a / np.sqrt(t)
+        if faults is not None:
+            faults['callable-stepsize-schedule'] = faults.get('callable-stepsize-schedule', 0) + 1
+    return o
+
+
 def zero_spec(case):
     return {tuple(zc): [tuple(c) for c in cells] for zc, cells in case['zeros']}
 
@@ -328,7 +341,8 @@ def zero_spec(case):
 def make_engine(mbi, case, iters):
     dom = mbi.Domain(case['attrs'], case['sizes'])
     zs = zero_spec(case)
-    eng = mbi.FactoredInference(dom, structural_zeros=zs, metric=case['metric'], iters=iters, warm_start=case['warm'], elim_order=case['elim'])
+    eng = mbi.FactoredInference(dom, structural_zeros=zs, metric=case['metric'], iters=iters, warm_start=case['warm'],
+                                elim_order=None if case['elim'] is None else list(case['elim']))      # every estimator gets its own list: the caller of the fresh reference passes the original order
     return eng, zs
 
 
@@ -598,7 +612,8 @@ def run_case(case, prop):
         # another estimator on the same domain, configured WITHOUT zeros, is used first in the same process
         first = [o for o in case['ops'] if o[0] == 'EST']
         if first:
-            plain = mbi.FactoredInference(mbi.Domain(case['attrs'], case['sizes']), metric=case['metric'], iters=1, warm_start=case['warm'], elim_order=case['elim'])
+            plain = mbi.FactoredInference(mbi.Domain(case['attrs'], case['sizes']), metric=case['metric'], iters=1, warm_start=case['warm'],
+                                          elim_order=None if case['elim'] is None else list(case['elim']))
             guard_repo(lambda: plain.estimate([pool[i] for i in first[0][1]], first[0][2], engine='MD' if case['metric'] == 'L1' else first[0][3],
                                               options=dict(first[0][4])), 'estimate')
     eng, zs = make_engine(mbi, case, iters=1000)
@@ -656,7 +671,7 @@ def run_case(case, prop):
             snap = input_snapshot(meas, zs)
             eng.iters = iters
             cbo = Callback(cb) if cb else None
-            options = dict(opts)
+            options = mat_options(opts, oi, iters, prop, faults)
             tag = 'op#%d EST solver=%s iters=%d meas=%s total=%r warm=%s' % (oi, solver, iters, sub, total, case['warm'])
             interrupted = False
             model = None
@@ -745,7 +760,7 @@ def run_case(case, prop):
                     # (i) history-free
                     if not case['warm']:
                         fresh, _ = make_engine(mbi, case, iters=iters)
-                        ref, v2 = guard_repo(lambda: fresh.estimate(meas, total, engine=solver, callback=Callback('record') if cb else None, options=dict(opts)), 'estimate:' + solver)
+                        ref, v2 = guard_repo(lambda: fresh.estimate(meas, total, engine=solver, callback=Callback('record') if cb else None, options=mat_options(opts, oi, iters, prop)), 'estimate:' + solver)
                         if ref is not None:
                             diff = models_equal(model, ref)
                             if diff:
